@@ -23,7 +23,13 @@ FATES = ["clean", "clean", "clean", "silent", "abort", "ignore_dt", "no_ack"]
 def _strategy(dll):
     fd = dll == "j1939-22"
     size = st.integers(61, 400) if fd else st.integers(9, 120)
-    fate = st.builds(lambda f, k: {"f": f, "k": k}, st.sampled_from(FATES), st.integers(0, 3))
+    # "late": a responder that missed a data frame gives up when its own receive time-out expires and sends an abort - about
+    # when the stack's T3 expires too (offsets around 1.25 s so that the abort arrives before / while / after the stack
+    # transmits its own time-out abort), or earlier (T1 = 0.75 s)
+    late = st.one_of(st.none(), st.none(), st.sampled_from([0.5, 0.75]),
+                     st.sampled_from([-0.003, -0.0025, -0.002, -0.0015, -0.001, -0.0007, -0.0005, -0.0003, 0.0, 0.0003]).map(lambda o: 1.25 + o))
+    fate = st.builds(lambda f, k, lt: {"f": f, "k": k, "late": lt} if (f == "ignore_dt" and lt) else {"f": f, "k": k},
+                     st.sampled_from(FATES), st.integers(0, 3), late)
     send = st.builds(lambda peer, kind, n, ft, gap, chain: {"op": "send", "peer": peer, "kind": kind, "n": n, "fate": ft, "gap": gap,
                                                              "chain": chain},
                      st.integers(0, 2), st.sampled_from(["rts", "rts", "rts", "bam"]), size, fate,
@@ -60,7 +66,7 @@ def _strategy(dll):
         "reply_lat": st.sampled_from([[0.001, 0.003], [0.001, 0.003], [0.02], [0.08]]),
         "sas": st.sampled_from([[0x30, 0x90, 0x91, 0x92], [0x30, 0x90, 0x91, 0x92], [0x00, 0x90, 0x91, 0x92], [0x30, 0x00, 0x01, 0xFD],
                                 [0xFD, 0x7F, 0x80, 0x00], [0x80, 0xF7, 0xF8, 0x01]]),
-        "tx_time": st.sampled_from([0.0, 0.0, 0.0001, 0.0005]),
+        "tx_time": st.sampled_from([0.0, 0.0, 0.0001, 0.0005, 0.002]),
         "max_cmdt": st.sampled_from([1, 2, 3, 255]),
         "grants": st.lists(st.sampled_from([1, 2, 3, 255]), min_size=1, max_size=3),
         "lat": st.fixed_dictionaries({"S": st.lists(st.sampled_from([0.0002, 0.0005, 0.001, 0.0025]), min_size=1, max_size=2)}),
@@ -73,7 +79,8 @@ class C10:
     TECHNIQUE = ("model-based property testing: generated transfer histories with injected fates against a reference "
                  "capacity model, followed by a full-concurrency probe (virtual time, reference peers)")
     RULE = ("Hypothesis draws, per data link layer, a history of 1..40 operations: outbound transfer to one of 3 reference peers "
-            "or broadcast with a fate (clean / peer never answers / peer aborts at its k-th grant / k-th data packet lost / "
+            "or broadcast with a fate (clean / peer never answers / peer aborts at its k-th grant / k-th data packet lost, optionally followed by the peer's own time-out abort 0.5 / 0.75 / 1.247..1.2503 s later - i.e. "
+            "before, while or after the stack transmits its own time-out abort (frame writes take 0..2 ms) - / "
             "final acknowledgement lost), inbound RTS-CTS or BAM session from a peer on any session number 0..15 completed or "
             "abandoned after 0-2 packets, gaps 0..3.2 s; one send in five is started from inside a receive callback (e.g. the acknowledge notification of the previous "
             "transfer); a send is issued only when the model has a free pair/slot and must "
